@@ -211,15 +211,25 @@ func isCommaOrSpace(c rune) bool {
 }
 
 func discard(reader io.Reader) error {
+	_, err := discardToEnd(reader)
+	return err
+}
+
+// discardToEnd is discard, and also reports whether the reader ended within
+// the limit. It asks for one byte more than the limit: a reader holding
+// exactly discardLimit bytes is then read to its end however it reports
+// io.EOF (with the last bytes or on a read of its own), and a longer one is
+// given up on either way.
+func discardToEnd(reader io.Reader) (bool, error) {
 	if lr, ok := reader.(*io.LimitedReader); ok {
 		_, err := io.Copy(io.Discard, lr)
-		return err
+		return err == nil, err
 	}
 	// We don't want to get stuck throwing data away forever, so limit how much
 	// we're willing to do here.
-	lr := &io.LimitedReader{R: reader, N: discardLimit}
-	_, err := io.Copy(io.Discard, lr)
-	return err
+	lr := &io.LimitedReader{R: reader, N: discardLimit + 1}
+	n, err := io.Copy(io.Discard, lr)
+	return err == nil && n <= discardLimit, err
 }
 
 func validateRequestURL(uri string) *Error {
